@@ -129,8 +129,17 @@ type Program struct {
 }
 
 // Load type-checks the harness packages of a module (with overlay) and builds SSA.
+// ModelFiles: virtual paths of the library-model files of the loaded program (race detection does not track
+// the models' own bookkeeping).
+var ModelFiles = map[string]bool{}
+
 func Load(verifRoot string, m Module, models []string, extraPkgs []string) (*Program, error) {
 	ov, err := BuildOverlay(verifRoot, m, models)
+	if err == nil {
+		for _, f := range ov.Models {
+			ModelFiles[f] = true
+		}
+	}
 	if err != nil {
 		return nil, err
 	}
